@@ -358,3 +358,6 @@ Section Witness.
       + cbn. rewrite P0, Q0. discriminate.
   Qed.
 End Witness.
+
+(* a concrete hash function for the non-vacuity Example of Props/C05.v *)
+Definition Hpoly (l : bytes) : N := fold_left (fun a b => (a * 257 + b + 1) mod two256) l 7.
